@@ -51,13 +51,13 @@ PROPS = {
         design_ref="DESIGN.md section 4, C02",
     ),
     "C05": S(
-        e.C05,
+        e.C05 + [version.ver4_stdlib_api],
         explanation="The per-call-site containment discipline behind 'extract never raises': every call in extract/extract_child/extract_iter is resolved and classified; calls that run third-party code "
                     "(unwrap_stackitem, FrameIterator stepping, contexts_active_in_frame, fill_context, elaborate_frame) must lie in a try whose handler catches Exception, does not re-raise or leave the engine loop, "
                     "and appends the exception to the list that becomes Stack.error; every pop/popleft/[0]/[-1] on the engine's queues must be dominated by a non-emptiness test (CFG must-dataflow); "
                     "a frame taken from the queue is yielded on every non-raising path; the error list maps to None / the exception / an ExceptionGroup by length; every local is definitely assigned "
                     "on all paths including exceptional edges; every remaining call is on a reviewed allowlist (an unlisted call makes the check undecided, exit 2).",
-        decides=["CONT-1", "CONT-2", "CONT-3", "CONT-4", "CONT-5", "DEF-1", "CONT-W"],
+        decides=["CONT-1", "CONT-2", "CONT-3", "CONT-4", "CONT-5", "DEF-1", "CONT-W", "VER-4"],
         not_decided=["that .error survives formatting", "pairs of faults interacting", "warnings escalated to errors by a -W error filter", "AssertionError from the engine's own asserts (argued from its invariants, not checked)"],
         assumptions=BASE_ASSUME + ["hook results documented as sequences behave as sequences (len/reversed/iteration do not raise)"],
         level_text="Static discipline check: the property is a per-call-site try/except discipline, which is visible in the shape of the code on every path; the rules enumerate every call site and every queue access of the engine on each run. "
@@ -201,7 +201,7 @@ PROPS = {
         design_ref="DESIGN.md section 4, C09",
     ),
     "C18": S(
-        fmt.C18,
+        fmt.C18 + [version.ver4_stdlib_api],
         explanation="Shape facts of the tree formatter: every prefix marker is chosen by `<ascii> if opts.ascii_only else <unicode>` with an ASCII, 2-character counterpart, the unicode->ascii map is a function across the three _format methods, unicode markers of one method are pairwise distinct, "
                     "and Frame._format recognises child-context lines by exactly the marker Context._format emits; all four visibility tests are `hide and not show_hidden` (truth tables); in every loop over a sub-component's lines each line reaches lines.append(marker + line) on every path; "
                     "every produced line is newline-terminated; format forwards its options by name and str() joins format(); contexts are rendered iff show_contexts.",
@@ -214,7 +214,7 @@ PROPS = {
         design_ref="DESIGN.md section 4, C18",
     ),
     "C19": S(
-        fmt.C19,
+        fmt.C19 + [version.ver4_stdlib_api],
         explanation="The two summary-side visibility tests; sibling agreement between Frame._format and as_stdlib_summary_with_contexts on when the frame's own entry is omitted (truth table, addressed as contexts[-1]); "
                     "no argument of any FrameSummary construction is a frame or object graph (locals is None or a dict of repr strings) and the entries carry (filename, lineno, funcname) / the with-line; "
                     "format_flat = header, StackSummary.format() iff frames, leaf, error; every option is forwarded to the same-named parameter through the five summary methods, and a context yields own entry, inner stack, children in that order.",
